@@ -65,6 +65,45 @@ def r1_search(m):
     r.ob(unresolved, "next: `if not os.path.isfile(%s): return item`" % cand)
     if not unresolved:
         r.fail("next|unresolved", "FortranReaderBase.next no longer returns the INCLUDE line as an ordinary item when the file is not found", m.loc(nx))
+    # a file that was found is expanded: between the existence test and the construction of the nested reader no other path hands the
+    # INCLUDE line on -- unless it is guarded by a collection that is also shrunk somewhere (a recursion guard with push AND pop)
+    ctor0 = [c for c in A.calls(nx.node) if A.text(c.func) == "FortranFileReader"]
+    chk = [n for n in A.body_nodes(nx.node) if isinstance(n, ast.If) and isinstance(n.test, ast.UnaryOp) and isinstance(n.test.operand, ast.Call)
+           and A.dotted(n.test.operand.func) in ("os.path.isfile", "os.path.exists")]
+    if ctor0 and chk:
+        r.instances += 1
+        lo, hi = chk[0].end_lineno, ctor0[0].lineno
+        cls_node = nx.cls_node
+        extra = []
+        P_ = A.parents(nx.node)
+        for n in A.body_nodes(nx.node):
+            if isinstance(n, ast.Return) and lo < n.lineno < hi and n.value is not None and A.text(n.value) == "item":
+                guard_attrs = set()
+                x = n
+                while x in P_ and P_[x] is not nx.node:
+                    p_ = P_[x]
+                    if isinstance(p_, ast.If) and x in p_.body:
+                        for c in ast.walk(p_.test):
+                            if isinstance(c, ast.Compare) and isinstance(c.ops[0], (ast.In, ast.NotIn)):
+                                for a_ in ast.walk(c.comparators[0]):
+                                    if isinstance(a_, ast.Attribute) and isinstance(a_.value, ast.Name) and a_.value.id == "self":
+                                        guard_attrs.add(a_.attr)
+                    x = p_
+                shrunk = False
+                for ga in guard_attrs:
+                    for y in ast.walk(cls_node) if cls_node is not None else ():
+                        if isinstance(y, ast.Call) and isinstance(y.func, ast.Attribute) and y.func.attr in ("pop", "remove", "discard", "clear", "popleft") \
+                                and A.text(y.func.value).endswith("." + ga):
+                            shrunk = True
+                        if isinstance(y, ast.Delete) and any(ga in A.text(t) for t in y.targets):
+                            shrunk = True
+                if not shrunk:
+                    extra.append((n, sorted(guard_attrs)))
+        r.ob(not extra, "next: a file that exists is always handed to a nested reader")
+        for n, ga in extra:
+            r.fail("next|found-not-expanded", "FortranReaderBase.next can return the INCLUDE line unexpanded although the file was found%s: "
+                   "the second inclusion of a file (two routines including the same declarations) stays an Include_Stmt"
+                   % (" (guarded by self.%s, which is only ever added to, never removed from)" % ga[0] if ga else ""), m.loc(nx, n))
     # options reach the nested reader
     r.instances += 1
     ctor = [c for c in A.calls(nx.node) if A.text(c.func) == "FortranFileReader"]
@@ -119,6 +158,8 @@ def run(m, tier):
     from rules import C08, order_rules
     from sa.report import retag
     results.append(order_rules.shared_state_rule(m, "C13.R7", ["fparser.common"], floor=12))
+    results.append(order_rules.memo_purity_rule(m, "C13.R8", ("fparser.common.readfortran", "fparser.common.sourceinfo", "fparser.common.splitline"),
+                                               ("include search and reading", "which file an INCLUDE line resolves to is decided from the file system as it is now, not as it was at an earlier parse"), 70))
     results.append(retag(C08.r4_opener_index(m), "C13.R6", "the block engine addresses the opening statement by start_idx: unresolved "
                          "Include_Stmt nodes collected before it come first in `content` (shared with C08.R4)"))
     expl = ("Decides structural clauses of C13: the include search visits self.include_dirs in order and stops at the first existing "
